@@ -6,7 +6,9 @@ number of input items that the first ``k`` outputs may consume (``f`` is the
 known value function of the input, only used by value-dependent rows such as
 ``filter``).  A case is plain data: the stage names + parameters of a chain, k,
 the source kind / mode and the way the outputs are pulled.  ``run_case`` hands a
-counting source (vlib.sources.Src) to the innermost stage and asserts
+counting source (vlib.sources.Src, or a re-iterable object - not an iterator -
+whose readers count together: Tape / GenTape / SizedTape) to the innermost
+stage and asserts
 
   (1) reads == 0 after construction (and after ``iter()``);
   (2) after j = 1..k outputs, reads == need(j) composed over the chain
@@ -34,8 +36,9 @@ from audiolazy.lazy_poly import x as PX
 
 ID = "C02"
 RULE = ("cases = (chain of 1..4 stage rows with parameters, k, source kind, source mode bounded/finite/endless, "
-        "pull mode next/take/peek+take/islice); every row of the stage table x a parameter sample x a k grid x "
-        "{bounded, finite} is enumerated, random rows / chains / tee-thub-copy fan-outs are drawn by Hypothesis; "
+        "pull mode next/take/peek+take/islice, feed = the counting iterator or a re-iterable non-iterator object "
+        "[reader-object class / generator-method class / sized indexable container] whose readers count together); every row of the stage table x a parameter sample x a k grid x "
+        "{bounded, finite} x {iterator, re-iterable} is enumerated, random rows / chains / tee-thub-copy fan-outs are drawn by Hypothesis; "
         "oracle = need(k) of each row (closed form written from the property text: k, n+k, max(0,k-left), "
         "(j-1)*hop+size, (ceil(k/hop)-1)*hop+size, index of the k-th passing item, resampler order+1 neighbourhood, "
         "furthest consumer of a tee) composed along the chain and compared with the pull counter of the source "
@@ -62,6 +65,10 @@ ASSUMPTIONS = [
   "the over-read it is",
   "a chain whose inner stage goes on for ever after its input ended (cycle, append(endless), a mixer with an endless "
   "event or keep=True) is run on the raising source instead of the finite one",
+  "a source may be an iterable that is not an iterator (iter() opens a fresh reader at item 0): its reads are the "
+  "total over all the readers a stage opened, so k outputs of a sample-wise stage still read k items (a ParallelFilter "
+  "shares one read among its branches whatever the input type). lazy_itertools.tee is documented to hand such an object "
+  "out n times as it is, so the tee rows wrap the source in iter() / Stream() first",
 ]
 
 BIG = 4000     # length of finite auxiliary operands: longer than any demand
@@ -133,6 +140,92 @@ def _first_fail(f, pred):
     if i > 20000:
       raise Reject("predicate never fails")
   return i
+
+
+# --- re-iterable sources ------------------------------------------------------
+# "Every source" includes objects that follow the *iterable* protocol without being iterators (a tape / file /
+# device reader class): ``iter(obj)`` opens a fresh reader at item 0.  A stage is handed the object itself; the
+# counters are totals over all the readers it opened, so a stage that lets each of n consumers open a reader of
+# its own reads n*k items for k outputs, where one shared (tee'd) read gives k.
+class _TapeBase(object):
+  def __init__(self, items=None, bound=None, f=None):
+    self.items = None if items is None else list(items)
+    self.f = f or (lambda i: i)
+    self.bound = bound
+    self.reads = 0       # item deliveries, all readers together
+    self.pulls = 0       # reader __next__ calls, all readers together
+    self.opened = 0      # readers opened
+
+  def _deliver(self, i):
+    """One ``next`` of a reader standing at item i (StopIteration at the end of a finite tape)."""
+    self.pulls += 1
+    if self.items is not None and i >= len(self.items):
+      raise StopIteration
+    if self.bound is not None and self.reads >= self.bound:
+      raise OverRead("source read for the %d-th time (reader at item %d, %d reader(s) opened), bound is %d"
+                     % (self.reads + 1, i + 1, self.opened, self.bound))
+    self.reads += 1
+    return self.items[i] if self.items is not None else self.f(i)
+
+
+class _Reader(object):
+  def __init__(self, tape):
+    self.tape = tape
+    self.i = 0
+
+  def __iter__(self):
+    return self
+
+  def __next__(self):
+    v = self.tape._deliver(self.i)
+    self.i += 1
+    return v
+
+
+class Tape(_TapeBase):
+  """Iterable, not an iterator: ``__iter__`` returns a reader object."""
+
+  def __iter__(self):
+    self.opened += 1
+    return _Reader(self)
+
+
+class GenTape(_TapeBase):
+  """Iterable, not an iterator: ``__iter__`` is a generator method."""
+
+  def __iter__(self):
+    self.opened += 1     # (runs with the first next() of the reader)
+    i = 0
+    while True:
+      try:
+        v = self._deliver(i)
+      except StopIteration:
+        return
+      yield v
+      i += 1
+
+
+class SizedTape(Tape):
+  """Re-iterable that also has a length and can be indexed (a user-defined container); indexing counts as reading."""
+
+  def __len__(self):
+    return len(self.items) if self.items is not None else (self.bound if self.bound is not None else BIG)
+
+  def __getitem__(self, idx):
+    if isinstance(idx, slice):
+      return [self[i] for i in range(*idx.indices(len(self)))]
+    if idx < 0:
+      idx += len(self)
+    if idx < 0 or idx >= len(self):
+      raise IndexError(idx)
+    try:
+      return self._deliver(idx)
+    except StopIteration:
+      raise IndexError(idx)
+
+
+FEEDS = OrderedDict([("iter", Src), ("reiter", Tape), ("reiter-gen", GenTape), ("reiter-sized", SizedTape)])
+REITER = [k for k in FEEDS if k != "iter"]
 
 
 # ---------------------------------------------------------------------------
@@ -489,6 +582,15 @@ R("parallel:nested", lambda s, p: ParallelFilter(CascadeFilter(_FILT["fir1"](), 
                                                  ParallelFilter(_FILT["delay"](), _FILT["gain"]()))(s), fam="filter")
 R("cascade:of-parallel", lambda s, p: CascadeFilter(ParallelFilter(_FILT["fir1"](), _FILT["delay"]()),
                                                     _FILT["iir1"]())(s), fam="filter")
+R("parallel:callables", lambda s, p: ParallelFilter(al.maverage.deque(3), lambda sig, **kw: S(sig) * 2, _FILT["iir1"]())(s),
+  fam="filter")
+R("parallel:Stream-in", lambda s, p: ParallelFilter(*[_FILT[n]() for n in p["fs"].split("+")])(S(s), zero=0), fam="filter",
+  dom={"fs": ["fir1+iir1", "delay+gain+fir3"]})
+R("cascade:parallel-later", lambda s, p: CascadeFilter(_FILT["iir1"](), ParallelFilter(_FILT["fir1"](), _FILT["delay"]()))(s),
+  fam="filter")
+R("cascade:parallel-in-parallel-first", lambda s, p: CascadeFilter(ParallelFilter(ParallelFilter(_FILT["fir1"](), _FILT["gain"]()),
+                                                                                  _FILT["tv-num"]()), _FILT["delay"]())(s),
+  fam="filter")
 _LPHP = ["pole", "z", "pole_exp", "z_exp"]
 R("lowpass", lambda s, p: al.lowpass[p["st"]](p["c"])(s), fam="filter-design", dom={"st": _LPHP, "c": [.5, 1.2]})
 R("highpass", lambda s, p: al.highpass[p["st"]](p["c"])(s), fam="filter-design", dom={"st": _LPHP, "c": [.5, 1.2]})
@@ -835,14 +937,20 @@ def run_case(case):
   if total > 3000:
     raise Reject("demand too large")
 
+  # what the innermost stage is handed: the counting iterator, or a re-iterable object (not an iterator) whose
+  # readers count together
+  feed = case.get("feed", "iter")
+  if feed not in FEEDS:
+    raise Reject("unknown feed")
+  mk = FEEDS[feed]
   if mode == "finite":
-    src = Src(items=[f0(i) for i in range(total)])
+    src = mk(items=[f0(i) for i in range(total)])
   elif mode == "bounded":
-    src = Src(bound=total, f=f0)
+    src = mk(bound=total, f=f0)
   else:
     # "endless": far more than needed is available, so the counts of an over-reading stage are reported as
     # numbers; the far bound only turns a stage that would never return (eager on an endless source) into OverRead
-    src = Src(bound=total + SLACK, f=f0)
+    src = mk(bound=total + SLACK, f=f0)
 
   def count_check(j, what):
     if src.pulls != src.reads:
@@ -850,8 +958,9 @@ def run_case(case):
                       % (_describe(case), what, total, kk), site=stages[0][0])
     got, exp = src.reads, needs[j]
     if (got != exp) if exact else (got > exp):
-      raise Violation("%s: %s read %d source items, expected %s%d (k=%d, source=%s/%s)"
-                      % (_describe(case), what, got, "" if exact else "at most ", exp, k, skind, mode),
+      raise Violation("%s: %s read %d source items, expected %s%d (k=%d, source=%s/%s/%s%s)"
+                      % (_describe(case), what, got, "" if exact else "at most ", exp, k, skind, mode, feed,
+                         "" if feed == "iter" else ", %d reader(s) opened" % src.opened),
                       site=stages[0][0])
 
   # (1) construction reads nothing
@@ -925,7 +1034,12 @@ def run_case(case):
       raise Violation("%s: after its end the stage had read %d source items, expected %d" % (_describe(case), src.reads, exp))
 
   ident = all(r.ident for r in rows)
-  labels = ["fam:" + rows[0].fam, "len:%d" % len(rows), "mode:" + mode, "pull:" + pull]
+  labels = ["fam:" + rows[0].fam, "len:%d" % len(rows), "mode:" + mode, "pull:" + pull, "feed:" + feed]
+  if feed != "iter":
+    labels.append("feed:re-iterable")
+    labels.append("re-iterable into fam:" + rows[0].fam)
+    if src.opened > 1:
+      labels.append("re-iterable: several readers opened")
   labels.extend("in-chain:" + r.fam for r in rows[1:])
   if any(r.tout == "b" for r in rows):
     labels.append("has block stage")
@@ -949,6 +1063,10 @@ for _n in _SINGLE_OK:
   _BY_FAM.setdefault(ROWS[_n].fam, []).append(_n)
 
 
+# what the innermost stage is handed: the counting iterator (half of the cases) or one of the re-iterable objects
+_FEEDW = [f for r in REITER for f in ("iter", r)]
+
+
 def _kmax(tier):
   return 12 if tier == "quick" else 24
 
@@ -965,6 +1083,7 @@ def strat_single(tier):
     src=st.sampled_from(GENERIC),
     mode=st.sampled_from(["bounded", "bounded", "finite", "endless"]),
     pull=st.sampled_from(["next", "next", "take", "peek", "islice"]),
+    feed=st.sampled_from(_FEEDW),
   ))
 
 
@@ -1012,6 +1131,7 @@ def strat_chain(tier):
     src=st.sampled_from(GENERIC),
     mode=st.sampled_from(["bounded", "finite"]),
     pull=st.sampled_from(["next", "next", "take", "islice"]),
+    feed=st.sampled_from(_FEEDW),
   ))
 
 
@@ -1055,6 +1175,7 @@ def strat_fan(tier):
     sched=st.lists(st.tuples(st.integers(0, 3), st.sampled_from(["next", "next", "take2", "peek3", "+1"])),
                    min_size=1, max_size=12 if tier == "quick" else 30),
     mode=st.sampled_from(["bounded", "finite"]),
+    feed=st.sampled_from(_FEEDW),
   ))
 
 
@@ -1079,7 +1200,11 @@ def run_fan(case):
     plan.append((ci, act, hi, pos[ci]))
   total = hi
   f0 = SRCF["count1"]
-  src = Src(items=[f0(i) for i in range(total)]) if case["mode"] == "finite" else Src(bound=total, f=f0)
+  feed = case.get("feed", "iter")
+  if feed not in FEEDS:
+    raise Reject("unknown feed")
+  mk = FEEDS[feed]
+  src = mk(items=[f0(i) for i in range(total)]) if case["mode"] == "finite" else mk(bound=total, f=f0)
   try:
     outs = _fanout(case["kind"], src, n)
     if src.pulls:
@@ -1110,7 +1235,10 @@ def run_fan(case):
   except OverRead as e:
     raise Violation("fan-out %s x%d pulled past the furthest consumer position %d (%s)" % (case["kind"], n, total, e),
                     site=case["kind"])
-  return {"nontrivial": n >= 2 and total >= 2, "labels": ["fan:" + case["kind"], "consumers:%d" % n, "mode:" + case["mode"]]}
+  labels = ["fan:" + case["kind"], "consumers:%d" % n, "mode:" + case["mode"], "feed:" + feed]
+  if feed != "iter":
+    labels.append("feed:re-iterable")
+  return {"nontrivial": n >= 2 and total >= 2, "labels": labels}
 
 
 # --- enumerated: every row x parameter sample x k grid x source mode ---------
@@ -1127,6 +1255,11 @@ def _grid(tier):
         for mi, mode in enumerate(["bounded", "finite"]):
           yield dict(stages=[[name, p]], k=k, src=GENERIC[(pi + ki) % len(GENERIC)], mode=mode,
                      pull=["next", "next", "take", "islice", "peek"][(pi + ki + mi) % 5] if mi else "next")
+          # the same cell with the source handed over as a re-iterable object (the three kinds rotate, so that
+          # every row x parameter sample meets each of them in both modes)
+          yield dict(stages=[[name, p]], k=k, src=GENERIC[(pi + ki) % len(GENERIC)], mode=mode,
+                     pull=["next", "take", "next", "islice", "peek"][(pi + ki) % 5] if mi else "next",
+                     feed=REITER[(pi + ki + mi) % len(REITER)])
 
 
 def grid(tier, shard, nshards):
@@ -1147,7 +1280,11 @@ def _grid_floors():
       names.add(case["stages"][0][0])
       n += 1
     tot = max(tot, n)
-  return dict(("row:" + n, 5. / tot) for n in names), tot
+  floors = dict(("row:" + n, 5. / tot) for n in names)
+  # half of the grid hands the source over as a re-iterable object (3.7 % of the grid: into a filter row)
+  floors["feed:re-iterable"] = .15
+  floors["re-iterable into fam:filter"] = .01
+  return floors, tot
 
 
 _GRID_FLOORS, _GRID_TOTAL = _grid_floors()
@@ -1161,16 +1298,20 @@ def run_row(case):
 
 CLAUSES = [
   Enumerated("rows", grid, run_row, shards={"quick": 8, "thorough": 16}, floors=_GRID_FLOORS,
-             doc="every stage row x parameter sample x k grid x {bounded, finite} source: 0 reads at construction, "
+             doc="every stage row x parameter sample x k grid x {bounded, finite} source x {iterator, re-iterable object}: 0 reads at construction, "
                  "reads == need(j) after every output j <= k, never past need(k)"),
   Clause("single", strat_single, run_case, quick=4000, thorough=80000,
          floors={"mode:finite": .08, "mode:bounded": .15, "pull:take": .05, "pull:peek": .05, "look-ahead/offset": .05,
-                 "fam:op": .02, "fam:filter": .01, "fam:blocks": .01, "fam:itertools": .01},
-         doc="random row, parameters, k, source kind/mode and pull mode (next / take / peek+take / islice)"),
+                 "fam:op": .02, "fam:filter": .01, "fam:blocks": .01, "fam:itertools": .01, "feed:re-iterable": .1,
+                 "feed:iter": .15},
+         doc="random row, parameters, k, source kind/mode, pull mode (next / take / peek+take / islice) and feed "
+             "(iterator / re-iterable object)"),
   Clause("chain", strat_chain, run_chain, quick=4000, thorough=80000,
-         floors={"len:2": .1, "len:3": .1, "has block stage": .03, "look-ahead/offset": .1},
-         doc="chains of 2-3 (thorough 4) type-compatible stages; need() functions compose"),
+         floors={"len:2": .1, "len:3": .1, "has block stage": .03, "look-ahead/offset": .1, "feed:re-iterable": .1,
+                 "feed:iter": .15},
+         doc="chains of 2-3 (thorough 4) type-compatible stages; need() functions compose; the innermost stage is fed "
+             "the iterator or a re-iterable object"),
   Clause("fanout", strat_fan, run_fan, quick=1200, thorough=20000,
-         floors={"consumers:2": .05, "consumers:4": .05},
+         floors={"consumers:2": .05, "consumers:4": .05, "feed:re-iterable": .1},
          doc="tee / thub / copy consumers advanced by a generated schedule: source reads == furthest consumer"),
 ]
